@@ -186,7 +186,11 @@ func (w *Reconciler) syncJobTasks(
 	// NOTE(irvinlim): Avoid using List() which performs a complete linear search.
 	tasks := make([]jobtasks.Task, 0, len(rj.Status.Tasks))
 	for _, ref := range rj.Status.Tasks {
-		if task, err := taskMgr.Lister().Get(ref.Name); err == nil {
+		task, err := w.getTaskForRef(ctx, taskMgr, ref)
+		if err != nil {
+			return rj, errors.Wrapf(err, "cannot get task %v", ref.Name)
+		}
+		if task != nil {
 			tasks = append(tasks, task)
 		}
 	}
@@ -241,6 +245,37 @@ func (w *Reconciler) syncJobTasks(
 	trace.Step("Final update status for tasks done")
 
 	return rj, nil
+}
+
+// getTaskForRef returns the task for the given TaskRef, or nil if it does not exist.
+//
+// The task is looked up from the cache. If it is not found there but was never
+// seen to be finished, it is looked up from the apiserver as well before we
+// conclude that it does not exist: the cache of tasks may be lagging behind the
+// cache of Jobs, in which case a task that was just created would otherwise be
+// treated as lost (and be created a second time, or be left behind when the Job
+// is finalized).
+func (w *Reconciler) getTaskForRef(
+	ctx context.Context, taskMgr jobtasks.Executor, ref execution.TaskRef,
+) (jobtasks.Task, error) {
+	task, err := taskMgr.Lister().Get(ref.Name)
+	if err == nil {
+		return task, nil
+	}
+	if !kerrors.IsNotFound(err) {
+		return nil, err
+	}
+	if !ref.FinishTimestamp.IsZero() {
+		return nil, nil
+	}
+	task, err = taskMgr.Client().Get(ctx, ref.Name)
+	if kerrors.IsNotFound(err) {
+		return nil, nil
+	}
+	if err != nil {
+		return nil, err
+	}
+	return task, nil
 }
 
 // updateTaskRefStatus will update the CreatedTask fields in the Job's status from a list of tasks.
@@ -842,14 +877,13 @@ func (w *Reconciler) handleFinishFinalizer(
 	// Use CreatedTaskRefs as they are guaranteed to contain all tasks that have been created by this Job.
 	tasks := make([]jobtasks.Task, 0, len(rj.Status.Tasks))
 	for _, taskRef := range rj.Status.Tasks {
-		task, err := taskMgr.Lister().Get(taskRef.Name)
-		if kerrors.IsNotFound(err) {
-			continue
-		} else if err != nil {
+		task, err := w.getTaskForRef(ctx, taskMgr, taskRef)
+		if err != nil {
 			return rj, errors.Wrapf(err, "cannot get task %v", taskRef.Name)
 		}
-
-		tasks = append(tasks, task)
+		if task != nil {
+			tasks = append(tasks, task)
+		}
 	}
 
 	// There are some tasks that are still not deleted, so we need to delete them.
